@@ -1,11 +1,11 @@
 (* GENERATED on every run by harness/props/c15_src.py from the syntax trees of the write methods of XMLFileWriter and ProtobufFileWriter.  Do not edit.
-   sources: commonroad/common/writer/file_writer_interface.py sha1=cb94354037e09d80f26dd1783a4e192cb2a0d285, commonroad/common/writer/file_writer_protobuf.py sha1=c0133fc4ee64ac9f3a9f35f81a83fc3dd8aed493, commonroad/common/writer/file_writer_xml.py sha1=604749f5bffbbc31a13aa771f04a757f45431dda *)
+   sources: commonroad/common/writer/file_writer_interface.py sha1=cb94354037e09d80f26dd1783a4e192cb2a0d285, commonroad/common/writer/file_writer_protobuf.py sha1=c0133fc4ee64ac9f3a9f35f81a83fc3dd8aed493, commonroad/common/writer/file_writer_xml.py sha1=19210cfc31a84c431c4f701ed3ecf617b01a5621 *)
 From Coq Require Import List.
 From CR Require Import Model.WritersSrc.
 Import ListNotations.
 
 Definition src_xml_write : list wstep := [WPolicy; WReset; WSetPrec; WHeader; WObjects; WProblems; WValidate; WEmit].
-Definition src_xml_write_scenario : list wstep := [WPolicy; WReset; WHeader; WObjects; WSetPrec; WEmit].
+Definition src_xml_write_scenario : list wstep := [WPolicy; WReset; WSetPrec; WHeader; WObjects; WEmit].
 Definition src_pb_write : list wstep := [WPolicy; WReset; WHeader; WObjects; WProblems; WValidate; WEmit].
 Definition src_pb_write_scenario : list wstep := [WPolicy; WReset; WHeader; WObjects; WEmit].
 Definition src_init : init_form := InitSetsPrecision.
